@@ -845,3 +845,42 @@ def _install_mf_ops():
 
 
 _install_mf_ops()
+
+
+# ---------------------------------------------------------------------------------------------------------
+# operations used by torch.optim's single-tensor functions (shadow-executed as the oracle of C02)
+
+
+class _NS:
+    def __init__(self, **kw):
+        self.__dict__.update(kw)
+
+
+def _install_optim_ops():
+    def addcdiv_(self, t1, t2, value=1):
+        f0, (f1, _), (f2, _) = self.fn(), self._operand(t1), self._operand(t2)
+        a = as_real(value).t
+        return self._set(lambda i: f0(i) + a * f1(i) / f2(i), "addcdiv_")
+
+    def addcmul(self, t1, t2, value=1):
+        f0, (f1, _), (f2, _) = self.fn(), self._operand(t1), self._operand(t2)
+        a = as_real(value).t
+        return self._new(lambda i: f0(i) + a * f1(i) * f2(i))
+
+    SymTensor.addcdiv_ = addcdiv_
+    SymTensor.addcmul = addcmul
+    SymTensor.conj = lambda self: self
+    SymTensor.is_sparse = False
+    FakeTorch.clone = lambda self_, t: t.clone()
+    FakeTorch.is_complex = lambda self_, t: False
+    old_init = FakeTorch.__init__
+
+    def init(self_):
+        old_init(self_)
+        object.__setattr__(self_, "jit", _NS(is_scripting=lambda: False))
+        object.__setattr__(self_, "_utils", _NS(is_compiling=lambda: False))
+
+    FakeTorch.__init__ = init
+
+
+_install_optim_ops()
